@@ -382,6 +382,12 @@ def handle (line : String) : String :=
   let fs := fields line
   let (inp, impl) := splitAt "=>" fs
   match inp with
+  | ["da", id, tname, _order] =>
+    -- document assembly: the schema the document publishes for the endpoint whose response is
+    -- this type, expanded through the document's components, is the conversion of the type's own
+    -- schema expanded through its own definitions (the conversion itself is what `dt` compares
+    -- with the model)
+    out id (impl == ["1"]) (b2s (impl == ["1"])) s!"da-{if tname.endsWith "Item" then "same-name" else "family"}" "-" "1"
   | [stream, id, nameH, schemaH] =>
     if stream != "rs" && stream != "us" then bad id "unknown-stream" else
     match decodeName nameH, decodeSchema schemaH, impl with
